@@ -10,7 +10,7 @@ def run(ctx):
         return
     ok = ctx.prove(MODULES, needs_gen=["KernelsFee", "KernelsGovFee"])
     # the real fee decorator (direct, CheckTx, FinalizeBlock) and Keeper.Burn vs the Lean model + property oracles
-    res = fw.corr(ctx, "fee", 40 if ctx.thorough() else 10)
+    res = fw.corr(ctx, "fee", 300 if ctx.thorough() else 10)
     fw.report_corr(ctx, "fee", res)
     if res is not None:
         st = res["stats"]
